@@ -409,7 +409,7 @@ func c10Height(c *core.Ctx, r *core.Result, rr *refRun, h uint32) {
 
 	var faults []c10Fault
 	sqlKinds := []string{"busy"}
-	reqKinds := []fake.FaultKind{fake.FaultTransport, fake.FaultTruncated}
+	reqKinds := []fake.FaultKind{fake.FaultTransport, fake.FaultTruncated, fake.FaultSubstituted}
 	if c.Thorough() {
 		sqlKinds = []string{"busy", "ioerr"}
 		reqKinds = fake.AllFaultKinds
